@@ -106,6 +106,14 @@ def judge(name, d):
         if t - rel > REL:
             return ("queue-close-does-not-wake-all", f"a blocked {parts[1]} caller returned {t - rel:.1f} ms after close()", False)
         return None
+    if parts[0] == "close_race":
+        if blocked != 1:
+            return ("queue-forever-timeout-returns-early", f"a default-timeout get returned {ret} after {t:.1f} ms although nothing had released it", True)
+        if ret == "none":
+            return ("queue-close-does-not-wake-all", "a consumer blocked in get() stayed blocked after put(); close() (queue non-empty at close, then drained)", True)
+        if t - rel > REL:
+            return ("queue-close-does-not-wake-all", f"a blocked consumer returned {t - rel:.1f} ms after put(); close()", False)
+        return None
     if parts[0] == "drain":
         k = int(parts[1][4:])
         exp_vals = ",".join(str(100 + i) for i in range(k)) or "-"
